@@ -223,6 +223,8 @@ def classify_reject(rj):
         kinds = {exp[0]} | ({act[0]} if act else set())
         if act and act[0].startswith('oob'):
             return 'oob'
+        if kinds & {'lexcall', 'lexcall_at_end'}:
+            return 'lexcall'
         if kinds & {'tval', 'call', 'dcall', 'ilist'}:
             return 'functor'
         if kinds & {'synerr', 'unexp'}:
@@ -243,7 +245,7 @@ def trace_violation(e, rj, cls):
         'summary': {'grammar': e.gid, 'rules': ['%s -> %s%s' % (l, ' '.join(r) or 'eps', ' [%d]' % p if p else '') for (l, r, p) in e.g.rules],
                     'input': bytes(t['bytes']).decode('latin-1'), 'options': {'verbose': t['verbose'], 'ws': t['ws'], 'nl': t['nl'], 'stream': t['stream']},
                     'class': cls, 'spec_expected': rj['why'], 'real_event': evs[pos - 1] if 0 < pos <= len(evs) else None, 'real_ok': t['ok']},
-        'kind': 'parser', 'gname': e.g.name, 'mode': e.mode, 'gid': e.gid, 'dflt': list(getattr(e, 'dflt', ())), 'lexterms': getattr(e, 'lexterms', None),
+        'kind': 'parser', 'gname': e.g.name, 'mode': e.mode, 'gid': e.gid, 'dflt': list(getattr(e, 'dflt', ())), 'lexterms': getattr(e, 'lexterms', None), 'clex': getattr(e, 'clex', False),
         'grammar': {'nts': e.g.nts, 'ts': e.g.ts, 'root': e.g.root, 'rules': e.g.rules, 'tprec': e.g.tprec, 'tassoc': e.g.tassoc},
         'bytes': t['bytes'], 'ws': t['ws'], 'nl': t['nl'], 'verbose': t['verbose'], 'stream': t['stream'], 'buf': t['buf']}
 
@@ -1502,6 +1504,54 @@ def check_C12(tier, seed):
     return out
 
 
+# ======================================================================================= C18
+def check_C18(tier, seed):
+    out = Outcome()
+    rng = random.Random(seed)
+    cat = {g.name: g for g in catalogue()}
+    names = ['left_rec', 'paren_list', 'expr_strat', 'nullable_prefix', 'lr1_not_lalr', 'err_suite', 'err_stmt', 'expr_amb']
+    if tier != 'quick':
+        names += ['closure_memo', 'two_lists', 'unit_chain', 'err_block', 'err_nested', 'dangling_else', 'right_rec_empty', 'mutual_rec']
+    entries = [pipeline.clex_entry(cat[n]) for n in names if n in cat]
+    L = 3 if tier == 'quick' else 4
+    for e in entries:
+        nt = len(e.g.ts)
+        toks = [0x40 + 4 * i + (l - 1) for i in range(min(nt + 1, 16)) for l in (1, 2, 3)]       # incl. one index that is not a term
+        if len(toks) > 9:
+            toks = toks[:3] + rng.sample(toks[3:], 6)
+        alpha = toks + [0x20, 0x0a, 0x21, 0x00]
+        ins = []
+        for sx in gram.all_strings(alpha, L):
+            ins.append(sx)
+            if len(ins) >= (2500 if tier == 'quick' else 20000):
+                break
+        for (ws, nl) in ((1, 1), (1, 0), (0, 1)):
+            pipeline.add_jobs(e, ins if (ws, nl) == (1, 1) else ins[::5], verbose=True, ws=ws, nl=nl, tag='o%d%d_' % (ws, nl))
+        pipeline.add_jobs(e, ins[::7], verbose=False, tag='nv')
+        pipeline.add_jobs(e, ins[::11], verbose=True, buf=3, tag='ck')
+        for _ in range(30 if tier == 'quick' else 300):
+            n = rng.randint(4, 40)
+            pipeline.add_jobs(e, [[rng.choice(alpha + toks) for _ in range(n)]], verbose=bool(rng.getrandbits(1)), tag='r')
+        # sentences of the grammar rendered with random lexeme lengths (accepted inputs of any length)
+        for s in gengram.sentences(e.g, rng, 10 if tier == 'quick' else 60, max_len=30):
+            b = []
+            for ch in s:
+                i = e.g.ts.index(chr(ch)); l = rng.choice([1, 2, 3])
+                b += [0x40 + 4 * i + (l - 1)] + [rng.choice([0x21, 0x41, 0x7f, 0x20]) for _ in range(l - 1)]
+                if rng.random() < 0.3:
+                    b.append(rng.choice([0x20, 0x0a]))
+            pipeline.add_jobs(e, [b], verbose=bool(rng.getrandbits(1)), tag='s')
+    res, work = prun.run(entries, 'C18', design_L=None, do_product=True, tlc_procs=4 if tier == 'quick' else 8, tlc_workers=4 if tier == 'quick' else 2)
+    domain = {e.gid for e in entries if e.gid in res.conflicts and res.conflicts[e.gid]['rr'] == 0}
+    judge_traces(out, entries, res, {'step', 'functor', 'report', 'position', 'verdict', 'tree', 'extra', 'recovery', 'threw', 'oob', 'lexcall', 'partial-line'}, domain)
+    out.coverage = base_coverage(res, {
+        'grammars': len(entries), 'lexer_calls_validated': res.event_kinds.get('lexcall', 0), 'custom_term_values_validated': res.event_kinds.get('tval', 0),
+        'bounds': {'L_all_inputs': L, 'lexer_answers': 'term index 0..#terms (one out of range), length 1..3, no-term, length beyond the input'},
+        'samples': sample_traces(entries, 3), 'exhaustive': False})
+    out.assumptions = std_assumptions() + ['the custom lexer is harness/rt.hpp byte_lexer: its answer is a function of the byte it is asked at (Tables!LexByte), so the inputs enumerate arbitrary (index, length) answers']
+    return out
+
+
 # ======================================================================================= replay
 def replay(pid, path):
     v = json.load(open(path))
@@ -1544,7 +1594,9 @@ def replay(pid, path):
     if v.get('kind') == 'parser':
         gd = v['grammar']
         g = gram.Grammar(v['gname'], gd['nts'], gd['ts'], gd['root'], [tuple(r) for r in gd['rules']], gd['tprec'], gd['tassoc'])
-        if v.get('lexterms'):
+        if v.get('clex'):
+            e = pipeline.clex_entry(g)
+        elif v.get('lexterms'):
             e = pipeline.lex_entry(v['gname'], [tuple(t) for t in v['lexterms']])
         elif v['mode'] == 'gen':
             e = pipeline.gen_entry(g, dflt=v.get('dflt', ()))
